@@ -2,6 +2,8 @@
 """Regenerate the table of section 8 of DESIGN.md from seeded/*/meta.json (strengthening notes are kept here)."""
 import glob, json, os, re
 NOTES = {
+ 'C03-J': 'missed at first; a glossary entry of the definitions file now has an unbraced value with an inner group that contains a comma',
+ 'C14-J': 'missed by C14 at first (caught by C01: text and map of different length); short insertions of the multi-language generator shared by C12 and C14 now begin with no, one or several white-space characters - caught by C12 and C14 as well',
  'C02-I': 'not seen by C02 (which runs without replacements); caught by C13, whose property it also breaks',
  'C03-I': 'not seen by C03 (no document of the shared generator loads a package twice); C09 got a metamorphic run: a user redefinition of a package macro must survive a repeated \\usepackage, class options varied',
  'C08-I': 'missed at first; the file read in front of the fault now also reads a further file or loads packages that define macros by LaTeX text (two nesting levels)',
@@ -95,7 +97,7 @@ for d in sorted(glob.glob('/verif/seeded/*')):
     notes = re.sub(r'\s+', ' ', open(d + '/notes.md', encoding='utf-8').read().strip())
     short = (notes[:230].rsplit(' ', 1)[0] + ' ...').replace('|', '\\|')
     meta['strengthening'] = NOTES.get(sid, 'caught by the check as first built')
-    meta['round'] = 5 if sid[-1] in 'IJ' else 4 if sid[-1] in 'GH' else 3 if sid[-1] in 'EF' else (2 if sid[-1] in 'CD' else 1)
+    meta['round'] = 6 if sid[-1] == 'J' else 5 if sid[-1] == 'I' else 4 if sid[-1] in 'GH' else 3 if sid[-1] in 'EF' else (2 if sid[-1] in 'CD' else 1)
     json.dump(meta, open(d + '/meta.json', 'w'), indent=1, ensure_ascii=False)
     det = ', '.join(meta['detected_by_checks']) + (', C04' if sid == 'C01-B' else '')
     rows.append('| %s | %s | %s | %s |' % (sid, det, short, meta['strengthening']))
